@@ -2,16 +2,17 @@
 """Collects confirmed seeded changes from the scratch worktrees into /verif/seeded/<id>/ and prints the
 DESIGN.md §9 table from a matrix log produced by tools/seeded_scratch.sh."""
 import json, os, re, shutil, sys
-log = sys.argv[1]
+logs = sys.argv[1:]
 res = {}
 caught = {}
-for line in open(log, errors='replace'):
-    m = re.search(r'\[(/tmp/wt-(C\d+)/_seeded/(\w+))\] CAUGHT by (C\d+): (.*)', line)
+import itertools
+for line in itertools.chain(*[open(l, errors='replace') for l in logs]):
+    m = re.search(r'\[(/tmp/wt2?-(C\d+)/_seeded/(\w+))\] CAUGHT by (C\d+): (.*)', line)
     if m:
         key = m.group(2) + '-' + m.group(3)
         sig = re.search(r'sig=(\S+)', m.group(5))
         caught.setdefault(key, {})[m.group(4)] = sig.group(1) if sig else ''
-    m = re.search(r'RESULT (/tmp/wt-(C\d+)/_seeded/(\w+)) suite_ok=(\d) demo_fails_with_patch=(\d) caught_by=\[(.*?)\] tier=(\w+)', line)
+    m = re.search(r'RESULT (/tmp/wt2?-(C\d+)/_seeded/(\w+)) suite_ok=(\d) demo_fails_with_patch=(\d) caught_by=\[(.*?)\] tier=(\w+)', line)
     if m:
         key = m.group(2) + '-' + m.group(3)
         res[key] = dict(dir=m.group(1), prop=m.group(2), suite_ok=m.group(4) == '1', demo_fails=m.group(5) == '1', caught_by=m.group(6).split(), tier=m.group(7))
